@@ -288,6 +288,22 @@ func report(prop, tier string, seed int, l *Loaded, results []*taskResult, known
 		}
 	}
 
+	if censusC19 != nil {
+		// every nondeterminism site of the state-machine packages must have been executed by
+		// a self-composition harness (under independent symbolic resolutions)
+		for site := range censusC19 {
+			key := strings.TrimPrefix(site, "call of ")
+			hit := false
+			for k := range nondet {
+				if strings.Contains(site, k) || strings.Contains(k, key) || k == site {
+					hit = true
+				}
+			}
+			if !hit {
+				inconclusive = append(inconclusive, "nondeterminism site not executed by any self-composition harness: "+site)
+			}
+		}
+	}
 	sort.Strings(inconclusive)
 	inconclusive = dedup(inconclusive)
 	for _, s := range inconclusive {
@@ -346,6 +362,7 @@ func report(prop, tier string, seed int, l *Loaded, results []*taskResult, known
 			"functions_encoded_total":       len(funcs),
 			"stubs_hit":                     stubsHit,
 			"nondeterminism_sites":          nondet,
+			"nondeterminism_census":         censusC19,
 			"solver": map[string]interface{}{
 				"cmd": strings.Join(solverCmd, " "), "queries": solverQ, "sat": solverSat, "unsat": solverUnsat, "unknown": solverUnk, "time_s": solverTime,
 			},
